@@ -82,8 +82,11 @@ fn ser_named_type(ty: &OwnedDataModelType, value: &Value, out: &mut Vec<u8>) -> 
             out.extend_from_slice(used);
         }
         OwnedDataModelType::I128 => {
-            let val = value.as_i64().right()?;
-            let val = i128::from(val);
+            // serde_json holds an i128 up to u64::MAX as an unsigned number
+            let val = match value.as_i64() {
+                Some(v) => i128::from(v),
+                None => i128::from(value.as_u64().right()?),
+            };
             let val = zig_zag_i128(val);
             let mut buf = [0u8; varint_max::<i128>()];
             let used = varint_u128(val, &mut buf);
